@@ -29,15 +29,15 @@ def replay_instances(ctx):
     q = ctx.tier != "thorough"
     out = [
         # three addresses, every batch, finite / connected class
-        ("a3", {"Addrs": A3, "TTLs": "{0, 2, 8}", "Conn": 8, "Seqs": "{1, 2}", "Cap": 0, "MaxBatch": 3}, 40, 600 if q else 2000, 60),
+        ("a3", {"Addrs": A3, "TTLs": "{0, 2, 8}", "Conn": 8, "Seqs": "{1, 2}", "Cap": 0, "MaxBatch": 3}, 40, 250 if q else 2000, 60),
         # two addresses, two finite classes, connected and permanent
-        ("a2", {"Addrs": A2, "TTLs": "{0, 2, 4, 8, 9}", "Conn": 8, "Seqs": "{1, 2}", "Cap": 0, "MaxBatch": 2}, 40, 600 if q else 2000, 60),
+        ("a2", {"Addrs": A2, "TTLs": "{0, 2, 4, 8, 9}", "Conn": 8, "Seqs": "{1, 2}", "Cap": 0, "MaxBatch": 2}, 40, 250 if q else 2000, 60),
         # binding per-peer cap, one-address calls, connected class included
-        ("cap", {"Addrs": A3, "TTLs": "{0, 2, 8}", "Conn": 8, "Seqs": "{1, 2}", "Cap": 2, "MaxBatch": 1}, 40, 300 if q else 1000, 60),
+        ("cap", {"Addrs": A3, "TTLs": "{0, 2, 8}", "Conn": 8, "Seqs": "{1, 2}", "Cap": 2, "MaxBatch": 1}, 40, 150 if q else 1000, 60),
         # binding cap, ORDERED batches of up to two addresses (refreshed-existing then new, new then
         # existing, two new) with two finite classes so that the nearest expiry is unique
         ("capo", {"Addrs": A3, "TTLs": "{0, 2, 3}" if q else "{0, 2, 3, 8}", "Conn": 8, "Seqs": "{1}", "Cap": 2, "MaxBatch": 2},
-         40, 400 if q else 1500, 60),
+         40, 250 if q else 1500, 60),
     ]
     if not q:
         # three addresses, two finite classes; singletons and the full set (221 688 transitions)
@@ -51,13 +51,16 @@ ALL_PROPS = ("PROPERTIES AddNeverShortens AddScope SetOverrides UpdateExactlyCla
              "EvictionRule RejectInert RecordStays Durable")
 
 
-def covering_walks(g, seed, max_len):
+def covering_walks(g, seed, max_len, max_blind=4):
     """Walks from the initial state that together traverse every transition at least once, in O(E):
     one BFS gives the shortest path to every state; a walk = that path to a state with untraversed
     out-transitions, then untraversed transitions followed greedily (one step of look-ahead through
     a traversed transition when stuck).  lib/graph.covering_walks is quadratic on these graphs."""
     rnd = random.Random(seed)
     init = g.inits[0]
+    # a cap eviction among equal expiries ("tie") ends the behaviour in the harness (the victim is
+    # unspecified): such a transition is only ever the LAST step of a walk
+    tie = [bool(e[1].get("tie")) for e in g.edges]
     order = {k: list(v) for k, v in g.out.items()}
     for k in sorted(order):
         rnd.shuffle(order[k])
@@ -66,7 +69,7 @@ def covering_walks(g, seed, max_len):
     for u in bfs:
         for ei in order.get(u, ()):
             v = g.edges[ei][2]
-            if v not in parent:
+            if v not in parent and not tie[ei]:
                 parent[v] = (u, ei)
                 bfs.append(v)
     todo = {k: list(reversed(v)) for k, v in order.items()}     # stacks of untraversed out-transitions
@@ -101,13 +104,13 @@ def covering_walks(g, seed, max_len):
             while len(path) < max_len:
                 ei = pop(cur)
                 if ei is None:
-                    outs = order.get(cur, ())
+                    outs = [e for e in order.get(cur, ()) if not tie[e]]
                     nxt = next((e for e in outs if has(g.edges[e][2])), None)
                     if nxt is None:
-                        # nothing untraversed one step away: up to 4 seeded blind steps, so that walks are
+                        # nothing untraversed one step away: up to max_blind seeded blind steps, so that walks are
                         # long and reach a state through varied histories, not only the shortest one
                         blind += 1
-                        if blind > 4 or not outs:
+                        if blind > max_blind or not outs:
                             break
                         nxt = outs[rnd.randrange(len(outs))]
                     if len(path) + 2 > max_len:
@@ -117,8 +120,13 @@ def covering_walks(g, seed, max_len):
                     blind = 0
                 covered.add(ei)
                 path.append(ei)
+                if tie[ei]:
+                    break
                 cur = g.edges[ei][2]
             walks.append(g._mk(init, path))
+    unreached = [k for k in g.out if k not in parent]
+    if unreached:
+        raise MachineryError("%d states are reachable only through tie evictions" % len(unreached))
     if len(covered) != g.n_edges():
         raise MachineryError("covering walks traverse %d of %d transitions" % (len(covered), g.n_edges()))
     return walks
@@ -141,9 +149,13 @@ def _edges(args):
     g = graph.Graph(r.inits, r.edges)
     if g.n_edges() == 0:
         raise MachineryError("no edges printed for " + tag)
-    walks = covering_walks(g, ctx.seed, max_len)
+    walks = covering_walks(g, ctx.seed, max_len, max_blind=2 if ctx.tier != "thorough" else 4)
     n_cov = len(walks)
-    walks += g.random_walks(n_rand, depth, seed=ctx.seed * 31 + 7)
+    for w in g.random_walks(n_rand, depth, seed=ctx.seed * 31 + 7):
+        k = next((i for i, st in enumerate(w["steps"]) if st["op"].get("tie")), None)
+        if k is not None:
+            w["steps"] = w["steps"][:k + 1]
+        walks.append(w)
     hdr = {"tag": tag, "Conn": consts["Conn"], "Cap": consts["Cap"], "edges": g.n_edges(), "states": g.n_states(),
            "consts": {k: str(v) for k, v in consts.items()}}
     graph.write_behaviours(os.path.join(beh_dir, tag + ".jsonl"), walks, hdr)
@@ -180,7 +192,7 @@ def run(ctx):
     # (1) exhaustive design-level check of the statement's clauses on the abstract book (with and
     #     without the binding cap) + vacuity guards, (2) transition graphs for replay - side by side
     mc = [("full", tlc.subst_cfg("C09_MC.cfg", FULL)),
-          ("fullcap", tlc.subst_cfg("C09_MC.cfg", dict(FULL, Cap=2, MaxBatch=2),
+          ("fullcap", tlc.subst_cfg("C09_MC.cfg", dict(FULL, Cap=2, MaxBatch=2, TTLs="{0, 2, 3, 8}"),
                                     replace=[("Batches <- MCBatches", "Batches <- MCOBatches")]))]
     for inv in GUARDS:
         mc.append((inv, tlc.subst_cfg("C09_MC.cfg", insts[0][1], replace=[
@@ -211,7 +223,7 @@ def run(ctx):
     warm.join()
     # (3) replay on both real books
     res = goenv.run_harness(ctx, PKG, "^TestVerifC09Replay$", inputs=beh_dir, timeout=2400,
-                            env={"VERIF_C09_SHARDS": 4})
+                            env={"VERIF_C09_SHARDS": 6})
     side = os.path.join(res["_out"], "c09_mismatches.json")
     if os.path.exists(side):      # complete list (vfh caps result.json at 50 entries)
         with open(side) as f:
